@@ -11,6 +11,7 @@ decision from the oracle applied to the serialised target (`decOf ev`); `editD_s
 is W6's `edit` when the decision is the element-name stand-in.
 -/
 import RioModel.Proofs.FilterDom
+import RioModel.Model.FilterHtml
 set_option linter.unusedSimpArgs false
 set_option linter.unusedVariables false
 
@@ -50,6 +51,90 @@ theorem prepend_tokens_spec (hvt : VtLossless vt) (p1 : Bytes) (ps : List Bytes)
   rw [runToks_AP tk ev .prepend sel value vt (Or.inr rfl) hvt (valueMarks value) p1 ps (by simp)
     (fun a ha => by simp [ha]) doc h]
   simp [editD, opOf, selN, hne]
+
+/-! ### token level: replace -/
+
+/-- **replace (one-element path) substitutes every occurrence of the target, start tag to end tag**,
+including void (`<br>`) and self-closing (`<x/>`) ones, anywhere in the document outside other
+targets and raw text; with a selector, iff the oracle accepts the serialised target. -/
+theorem replace_tokens_spec_single (hvt : VtLossless vt) (p1 : Bytes) (sel : Option Bytes)
+    (value : Bytes) (doc : List Node)
+    (h : AnyDomGList vt [p1] p1 (fun _ _ knd cs => TargetR vt [p1] p1 knd cs) doc) :
+    ∃ v, Visitor.new filterActionReplace [p1] sel value = some v ∧
+      runToks tk ev v (tokensOfList vt doc) =
+        serializeList (editD (decOf ev) doc (.html filterActionReplace [p1] sel value)) := by
+  have h1 : filterActionReplace ≠ filterActionAppend := by simp [filterActionReplace, filterActionAppend]
+  have h2 : filterActionReplace ≠ filterActionPrepend := by simp [filterActionReplace, filterActionPrepend]
+  refine ⟨vis .replace sel value [] p1 [] false, by simp [Visitor.new, vis, h1, h2], ?_⟩
+  rw [runToks_R1 tk ev sel value vt hvt (valueMarks value) p1 doc h]
+  simp [editD, selN, h1, h2]
+
+/-- **replace (longer path) substitutes every sibling occurrence of the target** below the unique
+chain of path elements (`OneHitL` / `ChildDomR`: each path element but the last occurs once, as a
+child of the previous one; the last any number ≥ 1 of times as children of the last but one,
+normal, raw-text, void or self-closing). -/
+theorem replace_tokens_spec (hvt : VtLossless vt) (p1 a : Bytes) (rest : List Bytes) (sel : Option Bytes)
+    (value : Bytes) (doc : List Node) (hnd : (p1 :: a :: rest).Nodup)
+    (h : OneHitL vt (p1 :: a :: rest) p1
+      (fun _ _ knd cs => ChildDomR vt (p1 :: a :: rest) (a :: rest) p1 knd cs) doc) :
+    ∃ v, Visitor.new filterActionReplace (p1 :: a :: rest) sel value = some v ∧
+      runToks tk ev v (tokensOfList vt doc) =
+        serializeList (editD (decOf ev) doc (.html filterActionReplace (p1 :: a :: rest) sel value)) := by
+  have h1 : filterActionReplace ≠ filterActionAppend := by simp [filterActionReplace, filterActionAppend]
+  have h2 : filterActionReplace ≠ filterActionPrepend := by simp [filterActionReplace, filterActionPrepend]
+  refine ⟨vis .replace sel value [] p1 (a :: rest) false, by simp [Visitor.new, vis, h1, h2], ?_⟩
+  rw [runToks_Rn tk ev sel value vt hvt (valueMarks value) p1 a rest hnd doc h]
+  simp [editD, selN, h1, h2]
+
+/-! ### the excluded points are real (kernel-checked on the chain model with the tokenizer of C16) -/
+
+/-- `<a><b></b><b></b><b></b></a>` -/
+def docRepeated : List Node :=
+  [.el [97] [97] [] .normal [.el [98] [98] [] .normal [], .el [98] [98] [] .normal [], .el [98] [98] [] .normal []]]
+
+/-- the full statement for append_child without the uniqueness of the target among its siblings -/
+def AppendRepeatedFull : Prop :=
+  ∀ (doc : List Node) (path : List Bytes) (value : Bytes),
+    (Chain.new noCodec (fun s => s) [.html filterActionAppend path none value] [] : Chain Unit Unit).run
+        htmlTokenize evalStandIn noCodec [serializeList doc] =
+      serializeList (edit doc (.html filterActionAppend path none value))
+
+/-- DESIGN §6-O2: append_child on repeated sibling targets processes only every other one:
+path `[a, b]`, value `V` on `<a><b></b><b></b><b></b></a>` gives `<a><b>V</b><b></b><b>V</b></a>`. -/
+theorem append_repeated_targets_fails : ¬ AppendRepeatedFull := by
+  intro h
+  have := h docRepeated [[97], [98]] [86]
+  revert this
+  decide +kernel
+
+/-- the same at token level (any tokenizer, any oracle) -/
+theorem append_repeated_targets_fails_tokens :
+    runToks (fun _ => ([], [])) (fun _ _ => false) (vis .append none [86] [] [97] [[98]] false)
+        (tokensOfList textToks docRepeated) ≠
+      serializeList (editD (decOf fun _ _ => false) docRepeated (.html filterActionAppend [[97], [98]] none [86])) := by
+  decide
+
+/-- W6's observation O7: append_child whose LAST path element does not occur inserts the value before
+the end tag of the last element that was entered: path `[a, c]` on `<a><b></b></a>` gives
+`<a><b></b>V</a>` although the reference edit (and the property) leave the document alone. -/
+theorem append_absent_last_fails :
+    (Chain.new noCodec (fun s => s) [.html filterActionAppend [[97], [99]] none [86]] [] : Chain Unit Unit).run
+        htmlTokenize evalStandIn noCodec [serializeList [.el [97] [97] [] .normal [.el [98] [98] [] .normal []]]] =
+      [60, 97, 62, 60, 98, 62, 60, 47, 98, 62, 86, 60, 47, 97, 62] ∧
+    serializeList (edit [.el [97] [97] [] .normal [.el [98] [98] [] .normal []]]
+        (.html filterActionAppend [[97], [99]] none [86])) =
+      [60, 97, 62, 60, 98, 62, 60, 47, 98, 62, 60, 47, 97, 62] := by
+  decide +kernel
+
+/-- a path element matched as a DESCENDANT instead of a child (`<a><x><b></b></x></a>`, path `[a, b]`):
+the filter edits it, the reference (child semantics) does not — outside the domain. -/
+theorem descendant_not_child_fails :
+    (Chain.new noCodec (fun s => s) [.html filterActionAppend [[97], [98]] none [86]] [] : Chain Unit Unit).run
+        htmlTokenize evalStandIn noCodec
+        [serializeList [.el [97] [97] [] .normal [.el [120] [120] [] .normal [.el [98] [98] [] .normal []]]]] ≠
+      serializeList (edit [.el [97] [97] [] .normal [.el [120] [120] [] .normal [.el [98] [98] [] .normal []]]]
+        (.html filterActionAppend [[97], [98]] none [86])) := by
+  decide +kernel
 
 /-! ### everything outside the targets is unchanged -/
 
